@@ -229,11 +229,38 @@ impl Check for C11 {
 
     // 3. crash-point enumeration: EOF at every offset of the item
     if f_trunc {
-      for k in 0..enc.len() {
-        compare(&enc[..k], &mut vs);
+      if enc.len() <= 1024 {
+        for k in 0..enc.len() {
+          compare(&enc[..k], &mut vs);
+        }
+        out.ops += enc.len() as u64;
+        out.fault_n("eof_at_offset", enc.len() as u64);
+      } else {
+        // long items: every offset costs |item|^2; EOF at the first and last 128 offsets, at every offset
+        // within 4 bytes of a multiple of 256, and at 256 sampled offsets
+        let n = enc.len();
+        let mut ks: Vec<usize> = (0..128).chain(n - 128..n).collect();
+        let mut m = 256;
+        while m < n {
+          for d in 0..8 {
+            if m + d >= 4 && m + d - 4 < n {
+              ks.push(m + d - 4);
+            }
+          }
+          m += 256;
+        }
+        for _ in 0..256 {
+          ks.push(rf.below(n));
+        }
+        ks.sort();
+        ks.dedup();
+        for k in &ks {
+          compare(&enc[..*k], &mut vs);
+        }
+        out.ops += ks.len() as u64;
+        out.fault_n("eof_at_offset", ks.len() as u64);
+        out.probe("long_item_sampled_truncation");
       }
-      out.ops += enc.len() as u64;
-      out.fault_n("eof_at_offset", enc.len() as u64);
     }
 
     // 4. every single-bit flip of small items
@@ -285,7 +312,7 @@ impl Check for C11 {
     out.violations = vs;
     out.fp = fp;
     out.nontrivial = enc.len() >= 2;
-    out.sample = Some(json!({"item": show(&v), "encoding": hex(&enc), "faults_applied": n_faults, "truncations": if f_trunc { enc.len() } else { 0 }}));
+    out.sample = Some(json!({"item": show(&v), "encoding": hex(&enc), "faults_applied": n_faults, "truncations": if f_trunc { enc.len().min(2000) } else { 0 }}));
     out
   }
 
